@@ -17,27 +17,33 @@ type opClass struct {
 	name string
 	v    ref.Value
 	lit  bool // can be written as a literal
+	// non-finite numbers have no literal and are not data: they are quotients (num / 0)
+	num, den int64
+	quot     bool
 }
 
 func operandClasses() []opClass {
 	return []opClass{
-		{"null", ref.Null, true},
-		{"true", ref.Bool(true), true},
-		{"false", ref.Bool(false), true},
-		{"zero", ref.Int(0), true},
-		{"int", ref.Int(7), true},
-		{"negint", ref.Int(-3), true},
-		{"int53", ref.Int(ref.MaxSafe - 1), true},
-		{"float", ref.Float(2.5), true},
-		{"negfloat", ref.Float(-0.75), true},
-		{"empty", ref.Str(""), true},
-		{"ascii", ref.Str("abc"), true},
-		{"digits", ref.Str("42"), true},
-		{"unicode", ref.Str("héllo 中"), true},
-		{"html", ref.Str("<a href=\"x\">&'"), true},
-		{"list", ref.Value{K: ref.KList, ID: 501, L: []ref.Value{ref.Int(1), ref.Str("two")}}, false},
-		{"map", ref.Value{K: ref.KMap, ID: 502, Keys: []string{"k"}, M: map[string]ref.Value{"k": ref.Int(1)}}, false},
-		{"undefined", ref.Undef, false},
+		{name: "null", v: ref.Null, lit: true},
+		{name: "true", v: ref.Bool(true), lit: true},
+		{name: "false", v: ref.Bool(false), lit: true},
+		{name: "zero", v: ref.Int(0), lit: true},
+		{name: "int", v: ref.Int(7), lit: true},
+		{name: "negint", v: ref.Int(-3), lit: true},
+		{name: "int53", v: ref.Int(ref.MaxSafe - 1), lit: true},
+		{name: "float", v: ref.Float(2.5), lit: true},
+		{name: "negfloat", v: ref.Float(-0.75), lit: true},
+		{name: "empty", v: ref.Str(""), lit: true},
+		{name: "ascii", v: ref.Str("abc"), lit: true},
+		{name: "digits", v: ref.Str("42"), lit: true},
+		{name: "unicode", v: ref.Str("héllo 中"), lit: true},
+		{name: "html", v: ref.Str("<a href=\"x\">&'"), lit: true},
+		{name: "list", v: ref.Value{K: ref.KList, ID: 501, L: []ref.Value{ref.Int(1), ref.Str("two")}}, lit: false},
+		{name: "map", v: ref.Value{K: ref.KMap, ID: 502, Keys: []string{"k"}, M: map[string]ref.Value{"k": ref.Int(1)}}, lit: false},
+		{name: "undefined", v: ref.Undef},
+		{name: "nan", v: ref.Float(math.NaN()), lit: true, quot: true, num: 0},
+		{name: "inf", v: ref.Float(math.Inf(1)), lit: true, quot: true, num: 1},
+		{name: "neginf", v: ref.Float(math.Inf(-1)), lit: true, quot: true, num: -2},
 	}
 }
 
@@ -65,7 +71,9 @@ func dataFor(vals ...opClass) map[string]ref.Value {
 	names := []string{"x", "y", "z"}
 	d := map[string]ref.Value{}
 	for i, c := range vals {
-		if c.v.K != ref.KUndef {
+		if c.quot {
+			d[names[i]] = ref.Int(0) // the divisor
+		} else if c.v.K != ref.KUndef {
 			d[names[i]] = c.v
 		}
 	}
@@ -73,6 +81,13 @@ func dataFor(vals ...opClass) map[string]ref.Value {
 }
 
 func operandExpr(c opClass, name string, asLit bool) ref.Expr {
+	if c.quot {
+		var den ref.Expr = &ref.DataRef{Name: name}
+		if asLit {
+			den = &ref.Lit{V: ref.Int(0)}
+		}
+		return &ref.Paren{X: &ref.Binary{Op: "/", L: &ref.Lit{V: ref.Int(c.num)}, R: den}}
+	}
 	if asLit && c.lit {
 		return &ref.Lit{V: c.v}
 	}
@@ -523,13 +538,14 @@ func init() {
 	fw.Register(&fw.Prop{
 		ID:    "C01",
 		Level: "exploration",
-		Rule: "systematic: every binary operator x every ordered pair of 17 operand classes (as variables and as literals), every unary x class, every ordered pair of operators in both " +
+		Rule: "systematic: every binary operator x every ordered pair of 20 operand classes (three of them the non-finite quotients n/0) (as variables and as literals), every unary x class, every ordered pair of operators in both " +
 			"nestings with minimal and redundant parentheses, every function x argument-class tuple, every literal form, every data-reference form over nested data; each placed in " +
 			"21 syntactic positions (quick: two positions per expression, rotating; thorough: all); random: seeded typed expression trees of depth <= 4/6 with random data and position. " +
 			"Oracle: reference evaluator. distinct = distinct (source, data); non-trivial = contains an operator, function, access path or non-empty collection literal",
 		N: func(tier string) int { s, r := c01N(tier); return s + r },
 		Run: func(ctx *fw.Ctx, i int) fw.Result {
 			sys, _ := c01N(ctx.Tier)
+			ref.NonFinite = true // quotients by zero take part in comparisons, equality and truthiness
 			var e ref.Expr
 			var d map[string]ref.Value
 			var pos int
